@@ -196,7 +196,7 @@ class Emitter:
         k = op[0]
         o = []
         ind = indent
-        if k in ("open", "open_buf", "newin", "restart"):
+        if k in ("open", "open_buf", "newin", "restart", "open_restart"):
             o.append("%svf_rewind(%s, %d);" % (ind, C, op[1]))
         if fl.cxx and k in ("open", "newin", "restart"):
             o.append('%svf_X(%s, "%s %d");' % (ind, C, k, op[1]))
@@ -224,6 +224,16 @@ class Emitter:
                                 % (self.src_fp(op[1]), C, C)),
                 C, op[1], C, C))
             o.append("%s%s;" % (ind, fl.call("yy_switch_to_buffer", "(yybuffer) %s->slot[0]" % C)))
+        elif k == "open_restart":
+            self.uses.add("bufhelpers")
+            o.append('%svf_X(%s, "open_restart %d");' % (ind, C, op[1]))
+            if fl.nr:
+                o.append("%syyout = %s->out;" % (ind, C))
+            else:
+                o.append("%syyset_out(%s->out, yyscanner);" % (ind, C))
+            o.append("%s%s;" % (ind, fl.call("yyrestart", self.src_fp(op[1]))))
+            o.append("%s%s->slot[0] = (void *) %s; %s->slotsrc[0] = %d; %s->bstk[0] = 0; %s->bdepth = 1;" % (
+                ind, C, self.cur_buffer(), C, op[1], C, C))
         elif k == "newin":
             o.append('%svf_X(%s, "newin %d");' % (ind, C, op[1]))
             if fl.nr:
@@ -277,7 +287,7 @@ class Emitter:
             o.append("%s%s; %s->slot[%d] = 0;" % (ind, fl.call(
                 "yy_delete_buffer", "(yybuffer) %s->slot[%d]" % (C, op[1])), C, op[1]))
         elif k in ("gcreate", "gswitch", "gpush", "gpop", "gdelete", "gscan_bytes",
-                   "gscan_string", "gscan_buffer", "gflush", "greflush"):
+                   "gscan_string", "gscan_buffer", "gflush", "greflush", "gdelrestart"):
             self.uses.add("bufhelpers")
             args = [str(a) for a in op[1:]]
             if k == "gcreate" and len(op) < 4:
@@ -429,6 +439,7 @@ class Emitter:
                           "vfb_scan_string(int s, int si%s)" % pa,
                           "vfb_scan_buffer(int s, int si, int ok%s)" % pa,
                           "vfb_flush(int s%s)" % pa, "vfb_reflush(int s%s)" % pa,
+                          "vfb_delrestart(int src%s)" % pa,
                           "vfb_delete_all(%s)" % p0):
                 L.append("static void %s;" % proto)
         L.append("%}")
@@ -857,6 +868,16 @@ class Emitter:
         L[i:i + 1] = self.buffer_helpers() if "bufhelpers" in self.uses else []
         return L
 
+    def cur_buffer(self):
+        """C expression for the scanner's current buffer (NULL if there is none)."""
+        fl = self.fl
+        if fl.c99:
+            return "yy_current_buffer(yyscanner)"
+        if fl.a0:
+            g = "((struct yyguts_t *) yyscanner)"
+            return "(%s->yy_buffer_stack ? %s->yy_buffer_stack[%s->yy_buffer_stack_top] : 0)" % (g, g, g)
+        return "YY_CURRENT_BUFFER"
+
     def buffer_helpers(self):
         """Guarded buffer operations: each is executed only when it is valid in the current
         state (slot alive / not on the stack / ...), by rules the model applies identically,
@@ -929,6 +950,15 @@ class Emitter:
                  "(long) %s->src[%s->slotsrc[s]].pos); "
                  "vf_X(%s, b); %s; }" % (
                      PA, c, c, c, c, c, call("yy_flush_buffer", "(yybuffer) %s->slot[s]" % c)))
+        # the current buffer is deleted, then yyrestart() has to make one for the file it gets
+        H.append("static void vfb_delrestart(int src%s) { char b[64]; int i, s = %s->bstk[%s->bdepth - 1]; "
+                 "for (i = 0; i < VF_MAXSLOT; ++i) if (i != s && %s->slot[i] && %s->slotsrc[i] == src) "
+                 "{ vfb_skip(\"delrestart\"); return; } "
+                 "snprintf(b, sizeof b, \"delrestart %%d %%d\", s, src); vf_X(%s, b); "
+                 "%s; vfb_free(s); vf_rewind(%s, src); %s; "
+                 "%s->slot[s] = (void *) %s; %s->slotsrc[s] = src; }" % (
+                     PA, c, c, c, c, c, call("yy_delete_buffer", "(yybuffer) %s->slot[s]" % c), c,
+                     call("yyrestart", "%s->src[src].fp" % c), c, self.cur_buffer(), c))
         # the file behind a buffer is read again from its start: rewind + yy_flush_buffer
         H.append("static void vfb_reflush(int s%s) { char b[64]; "
                  "if (!%s->slot[s] || %s->slotsrc[s] < 0) { vfb_skip(\"reflush\"); return; } "
